@@ -12,6 +12,8 @@ import (
 	"strings"
 	"time"
 
+	logslog "log/slog"
+
 	"github.com/hedzr/is"
 	"github.com/hedzr/logg/slog"
 )
@@ -62,6 +64,7 @@ type coreScript struct {
 	FlagSets   [][]string    `json:"flag_sets"` // flag sets (names) used by the flag calls
 	TsLayouts  []string      `json:"ts_layouts"` // candidate layouts for the timestamp observation
 	RegCalls   []coreRegCall `json:"reg_calls"`  // RegisterLevel calls of the Register action
+	HandlerOpts []coreHandlerOpt `json:"handler_opts"` // options of the MkHandler action
 	ProcPer    bool          `json:"proc_per"`   // one fresh process per behaviour (the level registry cannot be reset)
 	Behaviours [][]coreEvent `json:"behaviours"`
 }
@@ -75,7 +78,15 @@ type coreRegCall struct {
 	Clash bool `json:"clash"`
 }
 
+type coreHandlerOpt struct {
+	NoColor  bool `json:"nocolor"`
+	NoSource bool `json:"nosource"`
+	JSON     bool `json:"json"`
+	Level    int  `json:"level"`
+}
+
 type coreRun struct {
+	handlers []logslog.Handler // log/slog handlers made by MkHandler, in order
 	restoreF []func() // restore functions returned by SaveFlagsAndMod, in order
 	restoreL []func() // restore functions returned by SaveLevelAndSet
 	sc      *coreScript
@@ -179,6 +190,7 @@ func (r *coreRun) reset() {
 	r.loggers = []*slog.Entry{nil, d}
 	r.ids = map[*slog.Entry]int{d: 1}
 	r.restoreF, r.restoreL = nil, nil
+	r.handlers = nil
 	sink.reset()
 }
 
@@ -390,8 +402,11 @@ func (r *coreRun) with(l *slog.Entry, k string, a, b int) *slog.Entry {
 func (r *coreRun) exec(ev coreEvent) (rec map[string]any) {
 	// random scripts only know an upper bound of the number of loggers: fold the receiver
 	// into the loggers that exist, and record the receiver actually used
-	if n := len(r.loggers) - 1; ev.L > n {
+	if n := len(r.loggers) - 1; ev.L > n && ev.Op != "HEmit" {
 		ev.L = (ev.L-1)%n + 1
+	}
+	if ev.Op == "HEmit" && len(r.handlers) > 0 {
+		ev.L = (ev.L-1)%len(r.handlers) + 1 // ev.L is a handler here
 	}
 	rec = map[string]any{"op": ev.Op, "l": ev.L, "k": ev.K, "a": ev.A, "b": ev.B}
 	defer func() {
@@ -433,6 +448,14 @@ func (r *coreRun) exec(ev coreEvent) (rec map[string]any) {
 		is.SetDebugMode(ev.A == 1)
 	case "VrbMode":
 		is.SetVerboseMode(ev.A == 1)
+	case "MkHandler":
+		o := r.sc.HandlerOpts[ev.A-1]
+		r.handlers = append(r.handlers, slog.NewSlogHandler(l, &slog.HandlerOptions{NoColor: o.NoColor, NoSource: o.NoSource, JSON: o.JSON, Level: slog.Level(o.Level)}))
+	case "HEmit":
+		h := r.handlers[(ev.L-1)%len(r.handlers)]
+		lv := map[int]logslog.Level{2: logslog.LevelError, 3: logslog.LevelWarn, 4: logslog.LevelInfo, 5: logslog.LevelDebug}[ev.A]
+		logslog.New(h).Log(context.Background(), lv, "handler record", "k", 1)
+		takeAll()
 	case "Register":
 		c := r.sc.RegCalls[ev.A-1]
 		title := fmt.Sprintf("CUSTOM%d", c.V)
